@@ -32,7 +32,7 @@ for name in names:
     finally:
         subprocess.run(["git", "-C", "/repo", "worktree", "remove", "--force", w], capture_output=True)
         sz = subprocess.run("du -s /var/tmp/gocache-mt 2>/dev/null | awk '{print int($1/1048576)}'", shell=True, capture_output=True, text=True).stdout.strip()
-        if sz.isdigit() and int(sz) > 25:
+        if sz.isdigit() and int(sz) > 60:
             subprocess.run(["rm", "-rf", "/var/tmp/gocache-mt"])
 print("missed:", missed)
 sys.exit(1 if missed else 0)
